@@ -421,6 +421,15 @@ def c07(r):
         # a season ends on the FIRST day the crop is mature: on the day before the harvest step the crop was not yet
         # mature (calendar-day crops: days after planting below the maturity length; thermal crops: degree days
         # accumulated since planting below the maturity threshold) — computed from the daily table, not the flags
+        if not ctx["off_season"]:
+            simulated = set(ts)
+            for k, h in hsteps.items():
+                # without off-season simulation the day after a harvest that is not the last season's is not simulated
+                # (unless the next planting date is that very day)
+                if 0 <= k and k + 1 < len(pl) and (int(h) + 1) in simulated and int(h) + 1 != pl[k + 1]:
+                    out.append(V("C07", "no-jump-after-harvest", r, int(h) + 1,
+                                 "the off-season is simulated although it is switched off (no jump from harvest to the next planting date)",
+                                 season=int(k), harvest_step=int(h), next_planting=int(pl[k + 1])))
         for k, h in hsteps.items():
             c = ctx["crops"][k] if 0 <= k < len(ctx["crops"]) else None
             if c is None or c.get("Maturity") is None or not (0 <= k < len(pl)):
@@ -585,6 +594,11 @@ def c19(r):
             e = expected[t]
             if not (math.isnan(e) and math.isnan(zgw)) and not abs(zgw - e) <= 1e-9 * max(1.0, abs(e)):
                 out.append(V("C19", "zgw-observations", r, t, "daily water-table depth does not follow the configured observations", series=zgw, expected=float(e)))
+        # a table more than 4 m below the centre of the bottom compartment feeds nothing
+        zbm = float(P["dzsum"][-1] - P["dz"][-1] / 2.0)
+        if zbm is not None and not math.isnan(zgw) and zgw - zbm >= 4.0 + 1e-9 and row[F_CR] != 0:
+            out.append(V("C19", "cr-from-far-table", r, t, "capillary rise from a water table more than 4 m below the profile",
+                         cr=float(row[F_CR]), zgw=zgw, bottom_mid=zbm))
         fa = L.get("fc_adj_new")
         if fa is not None:
             if np.any(fa < P["th_fc"] - 1e-12) or np.any(fa > P["th_s"] + 1e-12):
